@@ -400,8 +400,8 @@ package reflect
 //@   requires c15_budget: maxdepth >= maxDepthLimit + 2 - 2*lvl
 //@   decreases maxdepth
 //@   call decodeFixedSizeTypes ghost td = t
-//@   call Skip ghost fld = f
-//@   call Skip ghost wt = tp
+//@   call skipValue ghost fld = f
+//@   call skipValue ghost wt = tp
 //@   call decodeFixedSizeTypes ghost wt = tp
 //@   call mallocIfPointer ghost sbase = base
 //@   call mallocIfPointer ghost fld = f
@@ -426,9 +426,9 @@ package reflect
 //@   after decodeFixedSizeTypes ghost $seen = store($seen, f.ID, true)
 //@   after decodeStringNoCopy ghost $seen = (res_err == nil ? store($seen, f.ID, true) : $seen)
 //@   after decodeType ghost $seen = (res_err == nil ? store($seen, f.ID, true) : $seen)
-//@   after Skip ghost $skoff = (res_err == nil ? store($skoff, $skn, i - 3) : $skoff)
-//@   after Skip ghost $sksz = (res_err == nil ? store($sksz, $skn, res_n + 3) : $sksz)
-//@   after Skip ghost $skn = (res_err == nil ? $skn + 1 : $skn)
+//@   after skipValue ghost $skoff = (res_err == nil ? store($skoff, $skn, i - 3) : $skoff)
+//@   after skipValue ghost $sksz = (res_err == nil ? store($sksz, $skn, res_n + 3) : $sksz)
+//@   after skipValue ghost $skn = (res_err == nil ? $skn + 1 : $skn)
 //@   modifies M[base : base + sdSize(sd)], M[d.s.b + d.s.p : d.s.b + d.s.n], fields(&d.s), $brk, $initp
 //@   ensures 0 <= n && n <= len(b)
 //@   ensures spanInv(&d.s) && old($brk) <= $brk
